@@ -72,14 +72,16 @@ def random_actions(rng, n):
             acts.append({"a": "recreate", "s": s, "c": c, "n": rng.choice(NEEDS)})
             det.discard(s)
             edges = {e for e in edges if e[1] != s}
-        elif k < 0.88:
-            acts.append({"a": "addcons", "p": s, "c": c})
+        elif k < 0.86:
+            acts.append({"a": "addcons", "p": s, "c": c, "dyn": rng.random() < 0.5})
             edges.add((s, c))
-        elif k < 0.96:
+        elif k < 0.91:
             if edges and rng.random() < 0.85:
                 s, c = rng.choice(sorted(edges))
             acts.append({"a": "delcons", "p": s, "c": c})
             edges.discard((s, c))
+        else:
+            acts.append({"a": "out", "p": s, "k": rng.choice(["built", "built", "outdate", "vanish"])})
         if rng.random() < 0.4:
             acts.append({"a": "update"})
     acts.append({"a": "update"})
@@ -96,27 +98,35 @@ def scripted():
                 {"a": "release", "s": 2}, {"a": "state", "s": 2, "x": "S"}, up])
     # F2: an optional producer loses its last consumer edge
     res.append([{"a": "state", "s": 1, "x": "R"}, {"a": "create", "s": 2, "c": 1, "n": 1}, {"a": "create", "s": 3, "c": 1, "n": 2},
-                {"a": "addcons", "p": 2, "c": 3}, up, {"a": "delcons", "p": 2, "c": 3}, up, {"a": "addcons", "p": 2, "c": 3}, up,
+                {"a": "addcons", "p": 2, "c": 3, "dyn": False}, up, {"a": "delcons", "p": 2, "c": 3}, up, {"a": "addcons", "p": 2, "c": 3, "dyn": False}, up,
                 {"a": "detach", "s": 3}, up, {"a": "recycle", "s": 3, "c": 1, "n": 2}, up, {"a": "detach", "s": 3}, up,
                 {"a": "recreate", "s": 3, "c": 1, "n": 2}, up])
     # a consumer two creator levels below a detached plan (RECURSIVE_CHECK_AFTER_SOURCES walks the subtree)
     res.append([{"a": "state", "s": 1, "x": "R"}, {"a": "create", "s": 2, "c": 1, "n": 1}, {"a": "create", "s": 3, "c": 1, "n": 4},
-                {"a": "state", "s": 3, "x": "R"}, {"a": "create", "s": 4, "c": 3, "n": 2}, {"a": "addcons", "p": 2, "c": 4}, up,
+                {"a": "state", "s": 3, "x": "R"}, {"a": "create", "s": 4, "c": 3, "n": 2}, {"a": "addcons", "p": 2, "c": 4, "dyn": True}, up,
                 {"a": "detach", "s": 3}, up, {"a": "recycle", "s": 3, "c": 1, "n": 4}, up])
     # an edge added to an existing step raises the need of the optional producer behind it
     res.append([{"a": "state", "s": 1, "x": "R"}, {"a": "create", "s": 2, "c": 1, "n": 1}, {"a": "create", "s": 3, "c": 1, "n": 2}, up,
-                {"a": "state", "s": 3, "x": "R"}, {"a": "addcons", "p": 2, "c": 3}, up, {"a": "create", "s": 4, "c": 1, "n": 1},
-                {"a": "addcons", "p": 4, "c": 2}, up, {"a": "delcons", "p": 2, "c": 3}, up])
+                {"a": "state", "s": 3, "x": "R"}, {"a": "addcons", "p": 2, "c": 3, "dyn": False}, up, {"a": "create", "s": 4, "c": 1, "n": 1},
+                {"a": "addcons", "p": 4, "c": 2, "dyn": False}, up, {"a": "delcons", "p": 2, "c": 3}, up])
     # recycled subtree below a holder
     res.append([{"a": "state", "s": 1, "x": "R"}, {"a": "create", "s": 2, "c": 1, "n": 4}, {"a": "state", "s": 2, "x": "R"},
                 {"a": "create", "s": 3, "c": 2, "n": 2}, {"a": "create", "s": 4, "c": 3, "n": 2}, up, {"a": "detach", "s": 3}, up,
                 {"a": "hold", "s": 2}, {"a": "recycle", "s": 3, "c": 2, "n": 2}, up, {"a": "release", "s": 2}, up,
                 {"a": "state", "s": 2, "x": "F"}, up, {"a": "state", "s": 2, "x": "P"}, {"a": "state", "s": 2, "x": "R"}, up])
+    # readiness: initial and amended inputs, outputs built / outdated / gone, producers detached and back
+    res.append([{"a": "state", "s": 1, "x": "R"}, {"a": "create", "s": 2, "c": 1, "n": 2}, {"a": "create", "s": 3, "c": 1, "n": 2},
+                {"a": "create", "s": 4, "c": 1, "n": 2}, {"a": "addcons", "p": 2, "c": 3, "dyn": False}, {"a": "addcons", "p": 2, "c": 4, "dyn": True}, up,
+                {"a": "out", "p": 2, "k": "built"}, up, {"a": "state", "s": 3, "x": "S"}, {"a": "out", "p": 3, "k": "built"}, up,
+                {"a": "out", "p": 2, "k": "outdate"}, up, {"a": "out", "p": 2, "k": "built"}, up, {"a": "detach", "s": 2}, up,
+                {"a": "recycle", "s": 2, "c": 1, "n": 2}, up, {"a": "out", "p": 2, "k": "vanish"}, up, {"a": "detach", "s": 2}, up,
+                {"a": "recreate", "s": 2, "c": 1, "n": 2}, up, {"a": "delcons", "p": 2, "c": 4}, up])
     return res
 
 
 async def execute(acts, enabled):
-    from stepup.core.enums import Need, StepState
+    from stepup.core.enums import FileState, HashUpdateCause, Need, StepState
+    from stepup.core.hash import FileHash
     from stepup.core.file import File
     from stepup.core.scheduler import Scheduler
     from stepup.core.sqlite3 import DBSession
@@ -154,9 +164,18 @@ async def execute(acts, enabled):
             return File(wf, row[0], f"o{s}")
 
         def inputs(s):
+            """Initial (not amended) inputs: what a re-declaration must repeat to recycle the step."""
             st = step(s)
             return sorted(r[0] for r in db.execute(
-                "SELECT n.label FROM dependency d JOIN node n ON n.i = d.source WHERE d.sink = ? AND n.kind = 'file'", (st.i,)))
+                "SELECT n.label FROM dependency d JOIN node n ON n.i = d.source WHERE d.sink = ? AND n.kind = 'file' "
+                "AND NOT EXISTS (SELECT 1 FROM dynamic_dep dd WHERE dd.i = d.i)", (st.i,)))
+
+        counter = [0]
+
+        def fake():
+            counter[0] += 1
+            k_ = counter[0]
+            return FileHash(bytes([k_ % 256]) * 32, 0o100644, float(k_), 3, k_)
 
         def snapshot():
             ids = {}
@@ -173,10 +192,16 @@ async def execute(acts, enabled):
                     continue
                 cr, det = db.execute("SELECT creator, detached FROM node WHERE i = ?", (st.i,)).fetchone()
                 row = db.execute("SELECT state, _holding, need, _safe, _safe_ignoring_hold, _implied_need, _tail_time, "
-                                 "_check_safe, _check_after FROM step WHERE node = ?", (st.i,)).fetchone()
+                                 "_check_safe, _check_after, _ready, _check_ready FROM step WHERE node = ?", (st.i,)).fetchone()
+                frow = db.execute("SELECT file.state FROM node JOIN file ON file.node = node.i WHERE node.kind = 'file' AND node.label = ?",
+                                  (f"o{s}",)).fetchone()
+                inp = sorted([int(r[0][1:]), bool(r[1])] for r in db.execute(
+                    "SELECT n.label, EXISTS (SELECT 1 FROM dynamic_dep dd WHERE dd.i = d.i) FROM dependency d JOIN node n ON n.i = d.source "
+                    "WHERE d.sink = ? AND n.kind = 'file'", (st.i,)))
                 res.append({"ex": True, "cr": -1 if cr is None else ids.get(cr, -2), "det": bool(det), "st": letter[row[0]],
                             "hold": row[1], "need": rank_of[row[2]], "safe": bool(row[3]), "nh": bool(row[4]),
-                            "impl": rank_of[row[5]], "tail": row[6], "ckS": bool(row[7]), "ckA": bool(row[8])})
+                            "impl": rank_of[row[5]], "tail": row[6], "ckS": bool(row[7]), "ckA": bool(row[8]),
+                            "ready": bool(row[9]), "ckR": bool(row[10]), "fo": "NONE" if frow is None else FileState(frow[0]).name, "inp": inp})
             return res
 
         states = []
@@ -204,7 +229,17 @@ async def execute(acts, enabled):
                         elif k == "detach":
                             step(a["s"]).detach()
                         elif k == "addcons":
-                            step(a["c"]).add_source(ofile(a["p"]))
+                            idep = step(a["c"]).add_source(ofile(a["p"]))
+                            if a["dyn"]:
+                                db.execute("INSERT INTO dynamic_dep VALUES (?)", (idep,))
+                        elif k == "out":
+                            path = f"o{a['p']}"
+                            if a["k"] == "built":
+                                wf.update_file_hashes({path: fake()}, cause=HashUpdateCause.SUCCEEDED)
+                            elif a["k"] == "outdate":
+                                wf.mark_file_outdated(ofile(a["p"]))
+                            else:
+                                wf.update_file_hashes({path: FileHash.unknown()}, cause=HashUpdateCause.EXTERNAL)
                         elif k == "delcons":
                             step(a["c"]).del_sources([ofile(a["p"])])
                         elif k == "update":
@@ -226,11 +261,13 @@ def norm(e):
             continue
         res.append({"ex": True, "cr": st["cr"][i], "det": bool(st["det"][i]), "st": st["st"][i], "hold": st["hold"][i],
                     "need": st["need"][i], "safe": bool(st["safe"][i]), "nh": bool(st["nh"][i]), "impl": st["impl"][i],
-                    "tail": st["tail"][i], "ckS": bool(st["ckS"][i]), "ckA": bool(st["ckA"][i])})
+"tail": st["tail"][i], "ckS": bool(st["ckS"][i]), "ckA": bool(st["ckA"][i]),
+                    "ready": bool(st["ready"][i]), "ckR": bool(st["ckR"][i]), "fo": st["fo"][i],
+                    "inp": sorted([int(e[0]), bool(e[1])] for e in st["inp"][i])})
     return res
 
 
-STRUCT = ("ex", "cr", "det", "st", "hold", "need")
+STRUCT = ("ex", "cr", "det", "st", "hold", "need", "fo", "inp")
 CACHED = (("safe", "dsafe"), ("nh", "dnh"), ("impl", "dimpl"), ("tail", "dtail"))
 STRICT = os.environ.get("VERIF_SCHEDCACHE_STRICT") == "1"
 
@@ -248,14 +285,14 @@ def compare(gst, want, spec_st, stats):
         return "graph_modification_differs_from_specification", diff
     for g_, w_ in zip(gst, want):
         if g_["ex"]:
-            for f in ("ckS", "ckA"):
+            for f in ("ckS", "ckA", "ckR"):
                 if w_[f] and not g_[f]:
                     stats["flag_missing_vs_spec"] = stats.get("flag_missing_vs_spec", 0) + 1
                 if g_[f] and not w_[f]:
                     stats["flag_extra_vs_spec"] = stats.get("flag_extra_vs_spec", 0) + 1
     if STRICT and gst != want:
         return "strict_comparison_differs", [{"step": j + 1, "code": g_, "spec": w_} for j, (g_, w_) in enumerate(zip(gst, want)) if g_ != w_]
-    if any(g_["ex"] and (g_["ckS"] or g_["ckA"]) for g_ in gst):
+    if any(g_["ex"] and (g_["ckS"] or g_["ckA"] or g_["ckR"]) for g_ in gst):
         return None
     stats["clean_states_compared"] = stats.get("clean_states_compared", 0) + 1
     diff = []
@@ -266,6 +303,10 @@ def compare(gst, want, spec_st, stats):
                 d = bool(d) if col in ("safe", "nh") else d
                 if g_[col] != d:
                     diff.append({"step": j + 1, "column": col, "code": g_[col], "definition": d})
+    for j, g_ in enumerate(gst):
+        # _ready is recomputed for detached rows as well
+        if g_["ex"] and g_["ready"] != bool(spec_st["dready"][j]):
+            diff.append({"step": j + 1, "column": "ready", "code": g_["ready"], "definition": bool(spec_st["dready"][j])})
     if diff:
         return "cached_column_differs_from_definition_when_nothing_is_flagged", diff
     return None
@@ -273,7 +314,7 @@ def compare(gst, want, spec_st, stats):
 
 MODELS = {
     "quick": [("SchedCacheSafe.cfg", 600), ("SchedCacheAfter.cfg", 600)],
-    "thorough": [("SchedCacheSafe4.cfg", 1800), ("SchedCacheAfter.cfg", 900)],
+    "thorough": [("SchedCacheSafe4.cfg", 1800), ("SchedCacheAfter.cfg", 900), ("SchedCacheReady.cfg", 2400)],
 }
 
 
